@@ -7,7 +7,7 @@ from .base import Verdict, sig_of, crash_check, rc_in_enum, leak_check
 
 ID = "C04"
 LEVEL = "exploration"
-RUNS = (9000, 150000)
+RUNS = (7000, 150000)
 RULE = ("1-3 stored files, each rendered from the full 5.1 grammar, from the option-specific shapes (repeated keys, indented lines), "
         "written by the library itself, or unstructured (structural characters only, NUL/8-bit bytes, 64 KiB line), then hit by "
         "0-3 seeded storage faults (truncate, bit flip, zero range, duplicated/swapped sectors, garbage splice, foreign file, CRLF, "
